@@ -81,8 +81,13 @@ fn str_case<const N: usize, const TEXT: usize>(declared: u64) {
         Ok(s) => {
             assert!(s.len() <= N, "C19: text field beyond its capacity");
             assert!(spec_utf8_valid(s.as_bytes()), "C19: text field is not well-formed UTF-8");
-            kani::cover!(s.len() == N);
-            kani::cover!(s.len() > 0 && s.as_bytes()[0] >= 0x80);
+            // reachability of the interesting outcomes, where the instance admits them
+            if declared >= N as u64 && TEXT >= N {
+                kani::cover!(s.len() == N);
+            }
+            if TEXT >= 2 && (2 <= declared && declared as usize <= TEXT || declared >= 1000) {
+                kani::cover!(s.len() > 0 && s.as_bytes()[0] >= 0x80);
+            }
         }
         Err(e) => assert!(matches!(e, Error::NotEnoughData), "C19: unexpected generator error"),
     }
